@@ -10,6 +10,16 @@ CHECKS = {
                 text='For every shape/pattern/aliasing/alpha configuration inside the bound the real SparseMatrix*::apply code is executed symbolically and z3 decides, over all real values, equality with an independent dense oracle and operand immutability. Bounded (shapes, nnz); real arithmetic (no rounding).',
                 note='Trusted: g++ instantiation with SymReal, term DAG printer (shadow cross-check), z3 5.1.0, dense oracle. Assumes x not aliasing r, real arithmetic. Outside: rounding, MKL/CUDA, larger shapes.',
                 ref='3/C01'),
+    'C03': dict(cat='model_checking', engine='E2',
+                technique='bounded symbolic execution of the real SparseMatrixCSR algebra over a symbolic real scalar; z3 (NRA) decides equality with the dense formula; abort reachability for rejected patterns',
+                text='Every pattern configuration (operands and output pattern) in the bound is executed symbolically; z3 decides over all real values that the result equals the dense textbook formula restricted to the output pattern; incomplete required patterns must reach the abort.',
+                note='Trusted: SymReal instantiation, DAG printer, z3 5.1.0, dense oracle. Real arithmetic; sorted duplicate-free layouts; row-walking kernels need >= 1 stored entry (known finding for scale_rows/cols). Outside: rounding, sqrt accuracy, BCSR variants, larger shapes.',
+                ref='3/C03'),
+    'C04': dict(cat='model_checking', engine='E2',
+                technique='bounded symbolic execution of the real vector classes over a symbolic real scalar; z3 (NRA) decides element-wise definitions for every aliasing pattern',
+                text='Every vector kind (dense, blocked, tuple, power), size and aliasing pattern in the bound is executed symbolically; z3 decides over all real values that each result component equals the element-wise definition on the flattened data; min/max via inequalities + attainment for every ordering.',
+                note='Trusted: SymReal instantiation, DAG printer, z3 5.1.0. Real arithmetic (no rounding, no overflow); min/max only on non-empty vectors; sqrt as algebraic unknown. Outside: sparse vectors, lengths beyond the bound.',
+                ref='3/C04'),
 }
 NA_REASON = {}
 
